@@ -43,6 +43,18 @@ pub broadcast proof fn axiom_str_len_bound(s: &str)
 {
 }
 
+pub assume_specification<T, I> [<[T]>::get_unchecked_mut::<I>] (s: &mut [T], i: I) -> (r: &mut <I as core::slice::SliceIndex<[T]>>::Output)
+    where I: core::slice::SliceIndex<[T]>
+    requires i.in_bounds(old(s)),
+    ensures i.index_mut_postcondition(old(s), final(s), r, final(r));
+
+pub assume_specification [core::str::from_utf8_unchecked_mut] (b: &mut [u8]) -> (r: &mut str)
+    requires valid_utf8(old(b)@),
+    ensures r.spec_bytes() == old(b)@, final(b)@ == final(r).spec_bytes();
+
+pub assume_specification<T: Clone> [<[T]>::fill] (s: &mut [T], v: T)
+    ensures final(s)@.len() == old(s)@.len(), forall|i: int| 0 <= i < final(s)@.len() ==> final(s)@[i] == v;
+
 /// no Rust slice is longer than isize::MAX bytes (language guarantee; vstd only states usize::MAX)
 #[verifier::external_body]
 pub broadcast proof fn axiom_slice_len_bound(s: &[u8])
